@@ -1,15 +1,16 @@
 (* Gen/TieRelative.v -- boolean comparison functions for the generated C24 correspondence cases (and the
    lazily_stage cases of C23).  MODEL SIDE ONLY.
    Message ids are indices into a per-case table of contents; [mk] = first index with that content (cf. Gen/TiePaired.v).
-   Positions: the instance Z (Python ints) and the instance binary64 (Python floats; contents compared bit for bit). *)
-From Coq Require Import PrimFloat.
-From BV Require Import Base.Prelude Base.FloatOps Gen.Coalg Gen.PyGen Gen.Mutators Gen.Tie Gen.Paired Gen.Insert Gen.Relative Gen.During Gen.TiePaired.
+   Positions: the instance Z (Python ints) here; the instance binary64 (Python floats; contents compared bit for bit)
+   is in Gen/TieRelativeF.v, which no Props file depends on (the binary64 primitives stay out of the theorems' cone). *)
+From BV Require Import Base.Prelude Gen.Coalg Gen.PyGen Gen.Mutators Gen.Tie Gen.Paired Gen.Insert Gen.Relative Gen.During Gen.TiePaired.
 
 Section TieRel.
   Context {T : Type}.
   Variable add : T -> T -> T.
   Variable zero : T.
   Variable teqb : T -> T -> bool.
+  Variable comps : T -> list T.
 
   Definition rview_eqb (a b : rview T) : bool :=
     match a, b with
@@ -42,26 +43,39 @@ Section TieRel.
   Definition elig_t (devs : option (list nat)) (d : dev) : bool :=
     match devs with None => true | Some l => mem_nat d l end.
 
+  Fixpoint pseudos_t (t : list (dev * list dev)) (d : dev) : list dev :=
+    match t with
+    | [] => []
+    | (k, l) :: r => if Nat.eqb d k then l else pseudos_t r d
+    end.
+
   (* w = 0: relative_set_wrapper(plan, devs1)      w = 1: reset_positions_wrapper(plan, devs1)
      w = 2: reset_positions_wrapper(relative_set_wrapper(plan, devs1), devs2)   (rel_* scans, composed decorators)
+     [init d] = obj.position;  [elig1/elig2] = the normalised `devices` sets (None: every device);  the device tree:
+     [parents] (child, parent), [coupled] = coupled_parents, [pseudos] (pseudo-positioner, its pseudo axes) -- the same
+     for both layers (the plans pass the same device list to both decorators).
      [fa] = the implementation-side mirror of finding class C24-a on these runs; the model's own verdict must agree *)
   Definition c24_case (w : nat) (pos init : list T) (kinds : list nat) (devs1 devs2 : option (list nat))
+             (parents : list (dev * dev)) (coupled : list dev) (pseudos : list (dev * list dev))
              (tbl : list (rview T)) (plan : stmt) (fa : bool) (runs : list (list input * list obs)) : bool :=
     let position := fun d => nth d init zero in
     let view := rview_t tbl in
     let mk := rmk_t tbl in
     let mkn := rmkn_t tbl in
     let res0 := cl_resume tie_fuel in
-    let rel := rel_resume add zero (pos_of_t pos) (kind_t kinds) position res0 view mk mkn (elig_t devs1) in
+    let par := parent_t parents in
+    let cpl := fun d => mem_nat d coupled in
+    let psd := pseudos_t pseudos in
+    let rel := rel_resume add zero (pos_of_t pos) (kind_t kinds) position res0 view mk mkn (elig_t devs1) par cpl psd comps in
     let relf := rel_finding res0 view (elig_t devs1) in
     match w with
     | 0 => runs_ok rel (rel_init (cl_init plan)) runs
            && Bool.eqb fa (existsb (fun so => run_exists rel relf (rel_init (cl_init plan)) (fst so)) runs)
-    | 1 => let rs := reset_resume zero (pos_of_t pos) (kind_t kinds) position res0 view mk (elig_t devs1) in
+    | 1 => let rs := reset_resume zero (pos_of_t pos) (kind_t kinds) position res0 view mk (elig_t devs1) par cpl psd comps in
            runs_ok rs (reset_init (cl_init plan)) runs
            && Bool.eqb fa (existsb (fun so => run_exists rs (reset_finding res0 view (elig_t devs1))
                                                            (reset_init (cl_init plan)) (fst so)) runs)
-    | _ => let rs := reset_resume zero (pos_of_t pos) (kind_t kinds) position rel view mk (elig_t devs2) in
+    | _ => let rs := reset_resume zero (pos_of_t pos) (kind_t kinds) position rel view mk (elig_t devs2) par cpl psd comps in
            let f := fun s i => reset_finding rel view (elig_t devs2) s i
                                || match reset_host_input s i with Some (p, i') => relf p i' | None => false end in
            runs_ok rs (reset_init (rel_init (cl_init plan))) runs
@@ -69,8 +83,15 @@ Section TieRel.
     end.
 End TieRel.
 
-Definition c24_z := @c24_case Z Z.add 0%Z Z.eqb.
-Definition c24_f := @c24_case float PrimFloat.add 0%float fbits_eqb.
+Definition c24_z := @c24_case Z Z.add 0%Z Z.eqb (fun _ => []).
+
+(* integer positions that may be tuples (the position of a pseudo-positioner): scalars add, tuples have components *)
+Inductive tv := TS (z : Z) | TT (l : list Z).
+Definition tv_add (a b : tv) : tv := match a, b with TS x, TS y => TS (x + y) | _, _ => TT [] end.
+Definition tv_eqb (a b : tv) : bool :=
+  match a, b with TS x, TS y => Z.eqb x y | TT x, TT y => lZ_beq x y | _, _ => false end.
+Definition tv_comps (a : tv) : list tv := match a with TT l => map TS l | TS _ => [] end.
+Definition c24_t := @c24_case tv tv_add (TS 0) tv_eqb tv_comps.
 
 (* ------------------------------------------------------------------ lazily_stage_wrapper (C23) *)
 (* answers: VInt k (k < 50) stands for the k-th device list of the case; 50 and above for a Status (not iterable) *)
